@@ -351,6 +351,21 @@ static int record(uint64_t seed, const std::string& tier, const std::string& out
 		std::vector<double> w2 = Weighted_Average(wsc);
 		rel("wavg-weightscale", w2[0], w0[0], sc);
 		rel("wavg-weightscale-se", w2[1], w0[1], sc);
+		// translation by an offset that is huge compared with the spread (2^20, 2^40 spreads), on lattice data for which the shifted
+		// values are exact: variance and standard deviation are those of the unshifted data (a two-pass sum of squared deviations
+		// is accurate to (eps * offset)^2 / variance; the unit is 1e-7 of the variance)
+		{
+			std::vector<double> lat(n), latsh(n);
+			int sexp = g.coin() ? 20 : 40;
+			for(int j = 0; j < n; j++)
+			{
+				lat[j]	 = std::ldexp((double)g.range(-8000, 8000), -10);
+				latsh[j] = lat[j] + std::ldexp(g.coin() ? 1.0 : -1.0, sexp) * 0 + std::ldexp(1.0, sexp);
+			}
+			double v0 = Variance(lat), v1 = Variance(latsh);
+			T.emit({{"e", "Rel"}, {"kind", sexp == 20 ? "var-bigshift20" : "var-bigshift40"}, {"n", n}, {"q", quant(v1 - v0, 1e-7 * v0 + 1e-300)}});
+			T.emit({{"e", "Rel"}, {"kind", "sd-bigshift"}, {"n", n}, {"q", quant(Standard_Deviation(latsh) - std::sqrt(v0), 1e-7 * std::sqrt(v0) + 1e-300)}});
+		}
 		// translation and scaling with unequal weights: the mean moves with the data, the squared standard error is invariant resp. scales with k^2
 		std::vector<DataPoint> wsh = wd, wsl = wd;
 		for(auto& p : wsh)
